@@ -223,6 +223,95 @@ def oracle_stale(which, deps):
     return False
 
 
+
+FORBIDDEN = re.compile(r'\b(Admitted|admit|Axiom|Axioms|Parameter|Parameters|Conjecture|Admit Obligations|bypass_check)\b|Unset\s+(Guard|Positivity|Universe)\s+Checking|-type-in-type|-impredicative-set')
+
+
+def strip_coq_comments(text):
+    out, depth, i, n = [], 0, 0, len(text)
+    while i < n:
+        if text.startswith('(*', i):
+            depth += 1
+            i += 2
+        elif depth and text.startswith('*)', i):
+            depth -= 1
+            i += 2
+        else:
+            if not depth:
+                out.append(text[i])
+            elif text[i] == '\n':
+                out.append('\n')
+            i += 1
+    return ''.join(out)
+
+
+def scan_forbidden():
+    """Every .v file of the development (generated ones included), comments stripped:
+    no Admitted/admit/Axiom/Parameter/Conjecture, no switched-off kernel check, no
+    Variable/Hypothesis outside a Section.  Returns a list of 'file:line: text'."""
+    bad = []
+    files = []
+    for root, _, fs in os.walk(COQ + '/theories'):
+        files += [os.path.join(root, f) for f in fs if f.endswith('.v')]
+    files.append(COQ + '/_CoqProject')
+    for path in sorted(files):
+        try:
+            raw = open(path).read()
+        except OSError:
+            continue
+        text = strip_coq_comments(raw) if path.endswith('.v') else raw
+        depth = 0
+        for ln, line in enumerate(text.split('\n'), 1):
+            if re.match(r'\s*(Section|Module Type)\s+\w+', line):
+                depth += 1
+            elif re.match(r'\s*End\s+\w+\s*\.', line) and depth:
+                depth -= 1
+            if FORBIDDEN.search(line):
+                bad.append('%s:%d: %s' % (os.path.relpath(path, V), ln, line.strip()[:120]))
+            elif depth == 0 and re.match(r'\s*(Variable|Variables|Hypothesis|Hypotheses|Context)\b', line):
+                bad.append('%s:%d: %s (outside a Section)' % (os.path.relpath(path, V), ln, line.strip()[:120]))
+    return bad
+
+
+def print_assumptions(ctx, pfiles, names_by_file):
+    """Ask the kernel what each property theorem depends on (compiled files only)."""
+    path = os.path.join(ctx.work, 'pa_%s.v' % ctx.pid)
+    with open(path, 'w') as f:
+        for pf in pfiles:
+            f.write('From Maj Require Props.%s.\n' % pf)
+        for pf in pfiles:
+            for n in names_by_file[pf]:
+                f.write('Print Assumptions Maj.Props.%s.%s.\n' % (pf, n))
+    p = sh(['timeout', '600', 'coqc', '-Q', COQ + '/theories', 'Maj', path], cwd=ctx.work)
+    out = p.stdout + p.stderr
+    closed = out.count('Closed under the global context')
+    total = sum(len(v) for v in names_by_file.values())
+    for ext in ('.vo', '.glob', '.vok', '.vos'):
+        try:
+            os.remove(path[:-2] + ext)
+        except OSError:
+            pass
+    try:
+        os.remove(os.path.join(ctx.work, '.pa_%s.aux' % ctx.pid))
+    except OSError:
+        pass
+    return p.returncode == 0 and closed == total, closed, total, out
+
+
+def coqchk(ctx, pfiles):
+    """Independent re-check of the compiled property files and everything they depend on."""
+    mods = ['Maj.Props.%s' % pf for pf in pfiles]
+    p = sh(['timeout', '3000', 'coqchk', '-silent', '-o', '-Q', 'theories', 'Maj'] + mods, cwd=COQ)
+    out = p.stdout + p.stderr
+    m = re.search(r'\* Axioms:\s*(.*?)\n\s*\n\* Constants', out, re.S)
+    axioms = m.group(1).strip() if m else '?'
+    ok = p.returncode == 0 and axioms == '<none>' and all(
+        re.search(r'\* %s:\s*<none>' % re.escape(k), out) for k in
+        ['Constants/Inductives relying on type-in-type', 'Constants/Inductives relying on unsafe (co)fixpoints',
+         'Inductives whose positivity is assumed'])
+    return ok, axioms, out[-1500:]
+
+
 def prepare(ctx, props_file, need_gen_oracle=False):
     """Regenerate, rebuild proofs of this property, rebuild harness and oracles.
     Sets ctx.obligations / ctx.discharged / ctx.broken."""
@@ -241,11 +330,22 @@ def prepare(ctx, props_file, need_gen_oracle=False):
             ok, out = False, 'model cannot be regenerated: ' + ctx.gen_msg
         ctx.coq_ok = ok
         ctx.coq_log = out
+        bad = scan_forbidden()
+        ctx.forbidden = bad
+        if bad:
+            ctx.broken.append({'file': bad[0].split(':')[0], 'line': int(bad[0].split(':')[1]), 'lemma': 'development free of axioms / admitted proofs / disabled checks',
+                               'error': 'forbidden declarations: ' + '; '.join(bad[:8])})
         if ok:
-            ctx.discharged = len(names)
-            ctx.axioms = {'all property theorems': 'Closed under the global context'}
-            # Print Assumptions output is in the make log only when the file was rebuilt;
-            # re-query cheaply from the compiled file
+            nbf = {pf: theorem_names(COQ + '/theories/Props/%s.v' % pf) for pf in pfiles}
+            pa_ok, closed, total, pa_out = print_assumptions(ctx, pfiles, nbf)
+            ctx.discharged = len(names) if pa_ok else closed
+            if pa_ok:
+                ctx.axioms = {'all %d property theorems' % total: 'Closed under the global context (Print Assumptions, re-queried from the compiled files on this run)'}
+            else:
+                ctx.axioms = {'Print Assumptions': pa_out[-1500:]}
+                ctx.broken.append({'file': 'coq/theories/Props/%s.v' % pfiles[0], 'line': None,
+                                   'lemma': 'property theorems closed under the global context',
+                                   'error': '%d of %d closed; output: %s' % (closed, total, pa_out[-800:])})
         else:
             ctx.discharged = 0
             if ctx.gen_ok:
@@ -354,7 +454,14 @@ def finish(ctx, level, coverage, assumptions, checker_cmd):
     cov.setdefault('discharged', ctx.discharged)
     cov.setdefault('checker_cmd', checker_cmd)
     cov.setdefault('trusted_base', TRUSTED_BASE)
+    if ctx.tier == 'thorough' and getattr(ctx, 'coq_ok', False) and getattr(ctx, 'props_files', None):
+        ck_ok, ck_ax, ck_out = coqchk(ctx, ctx.props_files)
+        cov['coqchk'] = {'modules': ctx.props_files, 'ok': ck_ok, 'axioms': ck_ax}
+        if not ck_ok:
+            ctx.violation('broken-obligation', 'coqchk does not accept the compiled property files or reports axioms: ' + ck_ax + ' ' + ck_out[-400:],
+                          {'no_longer_checks': 'coqchk -o on ' + ' '.join(ctx.props_files), 'output': ck_out}, found_input=False)
     cov['axioms'] = ctx.axioms
+    cov['forbidden_scan'] = getattr(ctx, 'forbidden', None)
     cov['broken'] = ctx.broken
     cov['known_findings_reported'] = ctx.known
     cov['violation_lines'] = [v[1] for v in ctx.violations]
